@@ -127,6 +127,14 @@ def grown_functions(u, g):
     if base is None:
         return {}
     out = {}
+    # functions that did not exist on the unchanged tree and carry no contract: a caller cannot be re-verified across them
+    base_names = set(k.split("@")[0] for fs in base.values() for k in fs)
+    new_uncontracted = set(k.split("@")[0] for fs in g.shapes.values() for k, sh in fs.items() if k.split("@")[0] not in base_names and not sh.get("has_contract"))
+    for rel, fs in g.shapes.items():
+        for key, sh in fs.items():
+            hit = sorted(new_uncontracted & set(sh.get("calls", [])))
+            if hit:
+                out[key.split("@")[0]] = "a call to the new function(s) %s that carry no contract" % ", ".join(hit)
     for rel, fs in g.shapes.items():
         for key, sh in fs.items():
             b = base.get(rel, {}).get(key)
@@ -139,7 +147,7 @@ def grown_functions(u, g):
             if sh["unannotated_closures"] > b["unannotated_closures"]:
                 why.append("%d new closure(s)" % (sh["unannotated_closures"] - b["unannotated_closures"]))
             if why:
-                out[key.split("@")[0]] = " and ".join(why)
+                out[key.split("@")[0]] = " and ".join(why) + ((" and " + out[key.split("@")[0]]) if key.split("@")[0] in out else "")
     return out
 
 
@@ -303,6 +311,10 @@ def main():
                 # to tolerance: an equivalent reformulation (a*b -> b*a, powi(2) -> x*x, another lerp form) fails it too.  Such a
                 # failure is a verdict only together with a concrete failing input from the bounded native family.
                 proxy_failed.append((unit.NAME, fl))
+                for c in fl.clauses:
+                    failed_clause_ids.add(c[0])
+            else:
+                violations.append((unit.NAME, fl))
                 for c in fl.clauses:
                     failed_clause_ids.add(c[0])
         # obligations: named clauses carrying this property's tag in this unit
